@@ -1,0 +1,11 @@
+//go:build verif
+
+package ssh
+
+// VerifSKKeyWithoutUP exposes skKeyWithoutUP to the /verif harness (property C40).
+func VerifSKKeyWithoutUP(pubKey PublicKey) PublicKey { return skKeyWithoutUP(pubKey) }
+
+// VerifNoTouchAllowed exposes noTouchAllowed to the /verif harness (property C40).
+func VerifNoTouchAllowed(pubKey PublicKey, perms *Permissions) bool {
+	return noTouchAllowed(pubKey, perms)
+}
